@@ -31,7 +31,9 @@ from mc.core import Result
 from mc.ref import c21_model as M
 
 ENV_LABELS = ("default", "extra")
+ENTRIES = ("string", "loader", "loader-async")
 _ENVS: dict[str, tuple[Any, M.EnvFacts]] = {}
+_STORES: dict[str, dict[str, str]] = {}
 
 
 class HarnessError(Exception):
@@ -44,8 +46,12 @@ def get_env(label: str) -> tuple[Any, M.EnvFacts]:
         from liquid import Environment
         from liquid import Mode
 
-        env = Environment(extra=(label == "extra"), tolerance=Mode.STRICT)
-        for attr in ("analyze_tags_from_string", "from_string", "tokenizer", "tags"):
+        from liquid import DictLoader
+
+        _STORES[label] = {}
+        env = Environment(extra=(label == "extra"), tolerance=Mode.STRICT, loader=DictLoader(_STORES[label]))
+        for attr in ("analyze_tags_from_string", "analyze_tags", "analyze_tags_async", "from_string",
+                     "tokenizer", "tags"):
             if not hasattr(env, attr):
                 raise HarnessError(f"harness binding lost: Environment.{attr}")
         got = (env, M.EnvFacts(env))
@@ -87,14 +93,31 @@ def _reported(ta: Any) -> dict[str, dict[str, list[Any]]]:
     return out
 
 
-def evaluate(label: str, source: str, names: Optional[tuple[str, ...]]) -> dict[str, Any]:
+def analyze(label: str, env: Any, source: str, entry: str) -> Any:
+    """The analysis through one of its three public entry points."""
+    if entry == "string":
+        return env.analyze_tags_from_string(source)
+    store = _STORES[label]
+    if store.get("t") != source:
+        store["t"] = source
+    if entry == "loader":
+        return env.analyze_tags("t")
+    if entry == "loader-async":
+        from mc.util import run_coro
+
+        return run_coro(env.analyze_tags_async("t"))
+    raise AssertionError(entry)
+
+
+def evaluate(label: str, source: str, names: Optional[tuple[str, ...]], entry: str = "string") -> dict[str, Any]:
     """Run one case.  ``names`` is the abstract token sequence (None for generator programs:
     clause 3 is then not applied)."""
     from liquid.exceptions import LiquidError
+
     env, facts = get_env(label)
     viols: list[dict[str, Any]] = []
     counts: Counter[str] = Counter()
-    case = {"env": label, "source": source, "seq": list(names) if names is not None else None}
+    case = {"env": label, "source": source, "seq": list(names) if names is not None else None, "entry": entry}
     tokens = M.scan_tags(source)
     scanned = tuple(n for n, _ in tokens)
     if names is not None and scanned != names:
@@ -104,7 +127,7 @@ def evaluate(label: str, source: str, names: Optional[tuple[str, ...]]) -> dict[
     got: Optional[dict[str, dict[str, list[Any]]]] = None
     raised = ""
     try:
-        ta = env.analyze_tags_from_string(source)
+        ta = analyze(label, env, source, entry)
     except Exception as e:  # noqa: BLE001  any exception is the violation
         try:
             list(env.tokenizer()(source))
@@ -120,7 +143,7 @@ def evaluate(label: str, source: str, names: Optional[tuple[str, ...]]) -> dict[
         where = raise_site(e)
         viols.append({
             "signature": {"clause": "1-total", "exc": raised, "feature": feature, "where": where, "env": label},
-            "what": f"[{label}] analyze_tags_from_string({source!r}) raised {raised}: {str(e)[:80]} at {where}",
+            "what": f"[{label}] tag analysis ({entry}) of {source!r} raised {raised}: {str(e)[:80]} at {where}",
             "case": case,
         })
     else:
@@ -208,7 +231,7 @@ def evaluate(label: str, source: str, names: Optional[tuple[str, ...]]) -> dict[
         ("raise:" + raised) if got is None else ("reports:" + (rep or "-")),
         "req:" + ("U" if must_unknown else "") + ("C" if must_unclosed else "") if names is not None else "req:n/a",
     ])
-    nontrivial = (parsed.startswith("parse-ok") and len(tokens) > 0 and got is not None) or (
+    nontrivial = (parsed == "parse-ok" and len(tokens) > 0 and got is not None) or (
         got is not None and bool(must_unknown or must_unclosed))
     return {"violations": viols, "counts": counts, "outcome": outcome, "nontrivial": nontrivial, "case": case}
 
@@ -219,9 +242,9 @@ def evaluate(label: str, source: str, names: Optional[tuple[str, ...]]) -> dict[
 def spaces(tier: str) -> list[dict[str, Any]]:
     sp: list[dict[str, Any]] = []
 
-    def seq(env: str, menu: str, lengths: range, decor: str = "plain") -> None:
+    def seq(env: str, menu: str, lengths: range, decor: str = "plain", entry: str = "string") -> None:
         for n in lengths:
-            sp.append({"kind": "seq", "env": env, "menu": menu, "len": n, "decor": decor})
+            sp.append({"kind": "seq", "env": env, "menu": menu, "len": n, "decor": decor, "entry": entry})
 
     def mut(env: str, skel: str, devs: int, menu: str, lengths: tuple[int, ...] = (7, 8)) -> None:
         sp.append({"kind": "mut", "env": env, "skel": skel, "lens": list(lengths), "devs": devs, "menu": menu})
@@ -239,6 +262,8 @@ def spaces(tier: str) -> list[dict[str, Any]]:
         mut("default", "if-for-case", 0, "A19")
         mut("default", "if-for", 1, "A19")
         mut("default", "if-for", 2, "D4", (7,))
+        seq("default", "A19", range(0, 3), entry="loader")
+        seq("default", "A19", range(0, 3), entry="loader-async")
         gen("default", 2, 2, "full")
         # extra environment
         seq("extra", "A28", range(0, 5))
@@ -252,6 +277,8 @@ def spaces(tier: str) -> list[dict[str, Any]]:
         mut("extra", "block-translate", 1, "D12x", (8,))
         mut("extra", "if-block", 2, "D4x", (7,))
         mut("extra", "block-translate", 2, "D4x")
+        seq("extra", "A28", range(0, 3), entry="loader")
+        seq("extra", "A28", range(0, 3), entry="loader-async")
         gen("extra", 2, 2, "full")
     else:
         seq("default", "A19", range(0, 6))
@@ -262,6 +289,8 @@ def spaces(tier: str) -> list[dict[str, Any]]:
         mut("default", "all5", 0, "A19")
         mut("default", "all5", 1, "A19")
         mut("default", "if-for-case", 2, "D6")
+        seq("default", "A19", range(0, 4), entry="loader")
+        seq("default", "A19", range(0, 4), entry="loader-async")
         gen("default", 3, 3, "core")
         gen("default", 2, 2, "full")
         seq("extra", "A28", range(0, 6))
@@ -272,6 +301,8 @@ def spaces(tier: str) -> list[dict[str, Any]]:
         mut("extra", "x7", 0, "A28")
         mut("extra", "x7", 1, "D12x")
         mut("extra", "if-for-block-translate", 2, "D6x")
+        seq("extra", "A28", range(0, 4), entry="loader")
+        seq("extra", "A28", range(0, 4), entry="loader-async")
         gen("extra", 3, 3, "core")
         gen("extra", 2, 2, "full")
     return sp
@@ -327,11 +358,12 @@ class C21(Check):
         "each token rendered as a tag with a well-formed expression (plain / text-separated / whitespace-control "
         "decorations); 7-8 token sequences as substitution mutants (0, 1, 2 deviations, replacement tokens from "
         "the stated menu) of every valid leafless skeleton of the stated block set; every program of the shared "
-        "generator; each in the default and/or extra=True STRICT environment. One evaluation = one "
-        "(environment, source) pair run through analyze_tags_from_string and strict from_string. "
+        "generator; each in the default and/or extra=True STRICT environment; the shortest sequences also "
+        "through Environment.analyze_tags / analyze_tags_async over a dict loader. One evaluation = one "
+        "(environment, entry point, source) triple run through the tag analysis and strict from_string. "
         "Non-trivial = the analysis returned and either the source has >= 1 tag and parses in strict mode "
         "(clause 2 premise holds) or the abstract sequence contains a definitely-unknown name or a "
-        "definitely-unclosed registered block (clause 3 demands something); identity = (environment, source)."
+        "definitely-unclosed registered block (clause 3 demands something); identity = (environment, entry point, source)."
     )
     assumptions = [
         "tag expressions do not influence tag analysis (one well-formed expression per tag name)",
@@ -348,14 +380,19 @@ class C21(Check):
         out: dict[str, Any] = {}
         for s in spaces(tier):
             if s["kind"] == "seq":
-                key = f"{s['env']}: all sequences over {s['menu']} ({s['decor']})"
+                key = f"{s['env']}: all sequences over {s['menu']} ({s['decor']}, via {s['entry']})"
                 out[key] = sorted(set(out.get(key, [])) | {s["len"]})
             elif s["kind"] == "mut":
                 out[f"{s['env']}: skeletons {s['skel']} lengths {s['lens']}, exactly {s['devs']} substitutions "
                     f"from {s['menu']}"] = "all"
             else:
                 out[f"{s['env']}: generator programs n<={s['n']} d<={s['d']} level={s['level']}"] = "all"
-        return {k: (f"lengths {v[0]}..{v[-1]}" if isinstance(v, list) else v) for k, v in out.items()}
+        res: dict[str, Any] = {k: (f"lengths {v[0]}..{v[-1]}" if isinstance(v, list) else v) for k, v in out.items()}
+        used = sorted({s["menu"] for s in spaces(tier) if "menu" in s})
+        res["menus"] = {m: " ".join(M.MENUS[m]) for m in used}
+        res["skeleton block sets"] = {k: " ".join(v) for k, v in M.SKELETON_SETS.items()
+                                      if any(s.get("skel") == k for s in spaces(tier))}
+        return res
 
     def shards(self, tier: str) -> list[Any]:
         per = 30000 if tier == "quick" else 150000
@@ -374,15 +411,16 @@ class C21(Check):
         si, lo, hi = shard
         s = spaces(tier)[si]
         label = s["env"]
+        entry = s.get("entry", "string")
         res = Result()
         n_samples = 0
         for source, names in iter_cases(s, lo, hi):
-            r = evaluate(label, source, names)
+            r = evaluate(label, source, names, entry)
             sample = None
             if r["nontrivial"] and n_samples < 1 and len(source) > 30:
                 n_samples += 1
                 sample = {"env": label, "source": source, "outcome": r["outcome"]}
-            res.case(nontrivial=(label + "\x00" + source) if r["nontrivial"] else None, outcome=r["outcome"], sample=sample)
+            res.case(nontrivial=(label + "\x00" + entry + "\x00" + source) if r["nontrivial"] else None, outcome=r["outcome"], sample=sample)
             for k, v in r["counts"].items():
                 res.count(k, v)
             for v in r["violations"]:
@@ -392,8 +430,8 @@ class C21(Check):
 
     def replay(self, case: Any) -> list[dict[str, Any]]:
         names = tuple(case["seq"]) if case.get("seq") is not None else None
-        r = evaluate(case["env"], case["source"], names)
-        print(f"  env={case['env']} source={case['source']!r}\n  outcome={r['outcome']}")
+        r = evaluate(case["env"], case["source"], names, case.get("entry", "string"))
+        print(f"  env={case['env']} entry={case.get('entry', 'string')} source={case['source']!r}\n  outcome={r['outcome']}")
         return list(r["violations"])
 
 
